@@ -11,3 +11,9 @@ __all__ = ["AnalysisError"]
 
 class AnalysisError(Exception):
     """The analysis itself cannot give a verdict (exit code 2, never a violation)."""
+
+
+class SkipClause(AnalysisError):
+    """A structural clause did not find the spelling it knows, and an evaluated clause of the same property decides the
+    function in question: the structural clause is skipped with a note (recognise-or-skip), the run goes on."""
+
